@@ -632,6 +632,8 @@ def pmSkip (x : Proxy) (tr : Bool) (flag : Flag) (sn : Nat) (msg : String) : Boo
   (msg == "expired" && flag != .internal && !ExpFlags.jobMsgExpires) ||
   -- received messages of old jobs
   (!tr && flag == .received && sn != x.submitNum) ||
+  -- (repaired code only, see `ExpFlags.expiredIgnoresMsgs`: an expired task has no job, job messages are dropped)
+  (!tr && x.status == .expired && flag != .internal && ExpFlags.expiredIgnoresMsgs) ||
   -- a waiting task with a retry lined up ignores (late) messages; the scheduler's own `expired` is excepted
   (!tr && x.status == .waiting && msg != "expired" && x.live && (x.subTry > 0 || x.execTry > 0))
 
